@@ -35,6 +35,7 @@ import z3
 
 from pyvc import loader
 from pyvc.interp import _ENGINE, PathEnd
+from contracts.common import replay_script  # noqa: E402
 from pyvc.pack import Bounded, Case
 from pyvc.sym import SymInt, iexpr
 
@@ -224,7 +225,7 @@ def encode_cases():
                     ok = len(r.data) == 2 and z3.is_const(r.data[1]) and r.data[1].size() == 8 * pad
                     ctx.oblige("data is one unconstrained symbol covering the padded maximum size", z3.BoolVal(ok), info={"bits": r.data[1].size() if len(r.data) == 2 else None})
 
-            out.append(Case(f"{PROP}/calldata.Calldata.encode", f"{typ} sizes={sizes}", harness_bytes, sources=("halmos.calldata:Calldata.encode",)))
+            out.append(Case(f"{PROP}/calldata.Calldata.encode", f"{typ} sizes={sizes}", harness_bytes, replay=replay_script("bytes_payload_bounds.py", "a bytes parameter with the size candidates given in the order 65,0"), sources=("halmos.calldata:Calldata.encode",)))
 
     for sizes in ([0], [0, 1, 2], [3], [2, 0]):
         for base in (U, B):
